@@ -62,7 +62,7 @@ def apply_contract(interp, c, func, args, kwargs):
     """Modular call: assert the precondition, havoc, assume the postcondition."""
     st = interp.st
     st.used_contracts.add(c.qname)
-    if c.returns is None:
+    if c.returns is None and c.yields is None:
         from .api import _returns_a_value
         if c.returns_value is None:
             c.returns_value = _returns_a_value(func)
@@ -110,6 +110,12 @@ def apply_contract(interp, c, func, args, kwargs):
                 exc = _make_exc(interp, exc_cls, spec, env)
                 raise PyRaise(exc)
     result = c.returns.make(interp, 'ret.%s' % c.qname.rpartition(':')[2]) if isinstance(c.returns, Ty) else None
+    if c.yields is not None:
+        # a generator used through its contract: all its items at once (its effects happen at the call)
+        from .models import SIter
+        ys = c.yields.make(interp, 'yielded.%s' % c.qname.rpartition(':')[2])
+        ghosts = dict(ghosts, yielded=ys)
+        result = SIter(ys, 0)
     env2 = _clause_env(bound, ghosts, {'result': result, 'old': old, 'trace': st.trace, 'ghost': st.ghost})
     for name, clause in c.ensures.items():
         if isinstance(clause, tuple):       # (clause, 'effect') : executed for its effect on ghost state
@@ -259,12 +265,21 @@ def _run_path(interp, reg, c, func, rep):
     pos = [args[n] for n in names[:code.co_argcount]]
     kw = {n: args[n] for n in names[code.co_argcount:] if n in args}
     outcome = None
+    info = frontend.funcinfo_of(func)
+    yseq = None
+    if info.is_generator:
+        from .gens import YSeq
+        yseq = YSeq('yielded')
+        if c.yields is not None:
+            yseq.shape = _shape_of_ty(getattr(c.yields, 'elem', None))
+        interp.collect = [info, yseq, False]
     try:
         result = interp.call_real_function(func, pos, kw, c.owner)
-        from .interp import GenObj
         outcome = ('return', result)
     except PyRaise as e:
         outcome = ('raise', e.exc)
+    if yseq is not None:
+        ghosts = dict(ghosts, yielded=yseq)
     key = 'return' if outcome[0] == 'return' else type(outcome[1]).__name__
     rep.outcomes[key] = rep.outcomes.get(key, 0) + 1
     fname = c.qname
@@ -319,6 +334,19 @@ def _run_path(interp, reg, c, func, rep):
     if c.raises_only is not None and outcome[0] == 'return':
         st.oblige('%s : raises_only(%s)' % (fname, ', '.join(_exc_name(e) for e in list(c.raises) + list(c.may_raise)
                                                             + list(c.raises_only))), True, {'kind': 'raises-only'})
+
+
+def _shape_of_ty(ty):
+    from . import api
+    if isinstance(ty, api.FixedList) and ty.as_tuple:
+        return ('tuple', tuple(_shape_of_ty(t) for t in ty.elems))
+    if isinstance(ty, api._Int):
+        return ('int',)
+    if isinstance(ty, api._Bool):
+        return ('bool',)
+    if isinstance(ty, api._Str):
+        return ('str',)
+    return ('obj',)
 
 
 def _exc_name(e):
